@@ -3,8 +3,8 @@ import Qryn.LogQL.Planner
     reader/promql/transpiler: `TranspileLabelMatchers` (transpiler.go: `InitClickhousePlanner.Process`, `fingerprintsQuery`
     → the LogQL `StreamSelectPlanner`, `processHints`) and `GetLabelMatchersDownsampleRequest`
     (transpilerDownsample.go: `InitDownsamplePlanner`, `StreamSelectCombiner`, `DownsampleHintsPlanner`).
-    The matcher list is the one handed to `NewStreamSelectPlanner` (regular expressions already anchored on the raw
-    path). Column texts follow the Go format strings; C13 ties FROM / PREWHERE / WHERE / WITH of these terms to the
+    The matcher list is the one handed to `NewStreamSelectPlanner` (regular expressions already anchored, on both
+    paths since `fix: PromQL regular-expression matchers are anchored on the down-sampling path too`). Column texts follow the Go format strings; C13 ties FROM / PREWHERE / WHERE / WITH of these terms to the
     real statements (stream `model-prom`), which is what confinement reads. -/
 namespace Qryn.Prom
 open Qryn Qryn.Sql Qryn.LogQL
@@ -20,7 +20,7 @@ deriving Repr
 
 def instantFns : List String :=
   ["abs", "absent", "ceil", "exp", "floor", "ln", "log2", "log10", "round", "scalar", "sgn", "sort", "sqrt",
-   "timestamp", "atan", "cos", "cosh", "sin", "sinh", "tan", "tanh", "deg", "rad"]
+   "atan", "cos", "cosh", "sin", "sinh", "tan", "tanh", "deg", "rad"]
 def rangeFns : List String :=
   ["absent_over_time", "deriv", "idelta", "irate", "rate", "resets", "min_over_time", "max_over_time", "sum_over_time",
    "count_over_time", "stddev_over_time", "stdvar_over_time", "last_over_time", "present_over_time", "delta", "increase",
@@ -57,7 +57,8 @@ def processHints (h : Hints) (q : Sel) : Sel :=
         [.orderBy (.raw "fingerprint") .asc, .orderBy (.raw "timestamp_ms") .asc] none).with_ [(.named "spls", q)]
     else q
   if rangeFns.contains h.func && decide (h.stepMs > h.rangeMs) then
-    q1.andWhere [stepFilter "timestamp_ms" h.stepMs ge (h.stepMs - h.rangeMs)]
+    -- after `fix: the range-vector sample filter follows the windows the engine evaluates`
+    q1.andWhere [le (.raw ("(timestamp_ms - " ++ toString h.startMs ++ ") % " ++ toString h.stepMs)) (.int h.rangeMs)]
   else q1
 
 /-- **`TranspileLabelMatchers`** -/
@@ -71,7 +72,7 @@ def initDown (c : Ctx) (m15 : String) : Sel :=
     [simpleCol "samples.fingerprint" "fingerprint", simpleCol "argMaxMerge(samples.last)" "value",
      simpleCol "intDiv(samples.timestamp_ns, 1000000)" "timestamp_ms"]
     (some (.col (.raw m15) "samples")) [] none
-    (some (and_ [gt (.raw "samples.timestamp_ns") (.int c.fromNs), le (.raw "samples.timestamp_ns") (.int c.toNs), getTypes c]))
+    (some (and_ [ge (.raw "samples.timestamp_ns") (.int c.fromNs), le (.raw "samples.timestamp_ns") (.int c.toNs), getTypes c]))
     [.raw "timestamp_ms", .raw "fingerprint"] none
     [.orderBy (.raw "fingerprint") .asc, .orderBy (.raw "timestamp_ms") .asc] (limitOf c)
 
